@@ -149,6 +149,57 @@ def _terminating(stmts) -> bool:
     return False
 
 
+def _leave_cond(stmts):
+    """The condition under which a block is left before its end (return / raise / continue / break somewhere inside nested if / try / with):
+    None = never, True = always, else an expression (built from the tests on the way; a handler that leaves contributes `__raised__(E)`).
+    Loops are not looked into (a break / continue inside belongs to them; a return inside is not modelled: None)."""
+    alts = []
+    for st in stmts:
+        c = None
+        if isinstance(st, (ast.Return, ast.Raise, ast.Continue, ast.Break)):
+            c = True
+        elif isinstance(st, ast.If):
+            lb, lo = _leave_cond(st.body), _leave_cond(st.orelse)
+            parts = []
+            if lb is True:
+                parts.append(st.test)
+            elif lb is not None:
+                parts.append(ast.BoolOp(op=ast.And(), values=[st.test, lb]))
+            nt = ast.UnaryOp(op=ast.Not(), operand=st.test)
+            if lo is True:
+                parts.append(nt)
+            elif lo is not None:
+                parts.append(ast.BoolOp(op=ast.And(), values=[nt, lo]))
+            if lb is True and lo is True:
+                c = True
+            elif parts:
+                c = parts[0] if len(parts) == 1 else ast.BoolOp(op=ast.Or(), values=parts)
+        elif isinstance(st, (ast.With, ast.AsyncWith)):
+            c = _leave_cond(st.body)
+        elif isinstance(st, ast.Try):
+            parts = []
+            lb = _leave_cond(st.body + st.orelse)
+            if lb is True:
+                lb = None                    # (the body may still raise into a handler that falls through: not "always")
+            if lb is not None:
+                parts.append(lb)
+            for h in st.handlers:
+                lh = _leave_cond(h.body)
+                if lh is None:
+                    continue
+                r_ = ast.Call(func=ast.Name(id="__raised__", ctx=ast.Load()), args=[h.type if h.type is not None else ast.Name(id="BaseException", ctx=ast.Load())], keywords=[])
+                parts.append(r_ if lh is True else ast.BoolOp(op=ast.And(), values=[r_, lh]))
+            if parts:
+                c = parts[0] if len(parts) == 1 else ast.BoolOp(op=ast.Or(), values=parts)
+        if c is True:
+            return True if not alts else ast.BoolOp(op=ast.Or(), values=alts + [ast.Constant(value=True)])
+        if c is not None:
+            alts.append(c)
+    if not alts:
+        return None
+    return alts[0] if len(alts) == 1 else ast.BoolOp(op=ast.Or(), values=alts)
+
+
 def guards(n):
     """[(test expr, branch)] of the conditions under which n executes, innermost first, up to the enclosing function:
     enclosing if/while/ifexp/boolop conditions (branch True = body, False = orelse) AND guard clauses - an earlier
@@ -165,6 +216,16 @@ def guards(n):
                         out.append((sib.test, False))
                     elif isinstance(sib, ast.If) and sib.orelse and _terminating(sib.orelse) and not _terminating(sib.body):
                         out.append((sib.test, True))
+                    elif isinstance(sib, (ast.If, ast.Try, ast.With)):
+                        # leaves on some of its paths only (a return nested in an inner if / in a handler): what follows runs when it did not
+                        lc = _leave_cond([sib])
+                        if lc is not None and lc is not True and not any(isinstance(x, ast.Constant) and x.value is True for x in ast.walk(lc)):
+                            for x in ast.walk(lc):
+                                if not hasattr(x, "_p"):
+                                    x._p = getattr(sib, "_p", None)
+                                if not hasattr(x, "lineno"):
+                                    ast.copy_location(x, sib)
+                            out.append((lc, False))
         if isinstance(a, (ast.FunctionDef, ast.AsyncFunctionDef, ast.Lambda)):
             break
         if isinstance(a, (ast.If, ast.While, ast.IfExp)):
